@@ -140,6 +140,19 @@ def run(F, R):
         for x in lw:
             v = write_value(S, sm, x, LUT)
             R.check("C08-R2", "value:" + str(S.nodes[x].loc().split(":")[-1]) if False else "value:" + _k(S, x), all(s_ == "Some{now(param1.0.time_source)}" or s_.startswith("Some{now(") for s_ in v), str(v), "last_update_time is set to %s, expected Some(time_source.now())" % v, S.nodes[x].loc())
+    # an HTTP-status failure is a request failure, not a server answer: the exchange function hands a response on (Ok)
+    # only under `status.is_success()`; every other status leaves it as an error
+    exv = [BV.of(b) for b in c.bodies if b["kind"] == "coroutine" and any(t.get("trait") == "cup_ecdsa::Cupv2RequestHandler" and t.get("name") == "verify_response" for _, t in BV.of(b).calls())]
+    if R.floor("C08-R2", "exchange function (caller of verify_response)", len(exv), 1):
+        xv = exv[0]
+        succ_e = [(a, b) for (a, b, tr) in xv.bool_edges(lambda t: t[0] == "call" and lib.norm(t[1]) == "http::StatusCode::is_success") if tr]
+        other_tests = sorted(set(lib.norm(t.get("callee") or "").split("::")[-1] for _, t in xv.calls() if "StatusCode" in (t.get("callee") or "") and t.get("name") not in ("is_success",) and not smod.is_logging_span(t["sp"]) and (t.get("name") or "").startswith(("is_", "as_u16"))))
+        ok_blocks = [bi for bi in sorted(xv.reach0) for s_ in xv.blocks[bi]["s"] if s_["k"] == "assign" and s_["r"]["k"] == "agg" and s_["r"].get("vn") == "Ok" and "Parts" in xv.place_ty(s_["p"])["s"]]
+        if not succ_e and not other_tests:
+            R.inconclusive("C08-R2", "answer-only-on-http-success", "no status test found in the exchange function")
+        elif R.floor("C08-R2", "Ok(response) constructions in the exchange function", len(ok_blocks), 1):
+            R.check("C08-R2", "answer-only-on-http-success", bool(succ_e) and all(xv.dominated_by_edge(b_, succ_e) for b_ in ok_blocks),
+                    "a response is handed on only under status.is_success()", "the exchange hands a response on without status.is_success() (status tests: %s): a 3xx/4xx reply counts as a server answer, so the last-contact time advances on an HTTP failure" % (["is_success"] * bool(succ_e) + other_tests))
     if pcs:
         pc = pcs[0]
         plw = [x for x in sm.writes(Sr, *LUT) if smod.descends(Sr.nodes[x].ctx, pc)]
